@@ -26,7 +26,7 @@ ORDER4 = ["A(i,j,k,l) = B(i,j,k,l)", "A(i,j,k,l) = B(l,k,j,i)", "A(i,j,k,l) = B(
 
 PLAN = {
     "quick": dict(shards=12, fmt=10, inp=2, rnd=1300, draws=3, jit_every=3, lattice=240, medium=240),
-    "thorough": dict(shards=16, fmt=60, inp=3, rnd=16000, draws=4, jit_every=2, lattice=16000, medium=8000),
+    "thorough": dict(shards=16, fmt=60, inp=3, rnd=16000, draws=4, jit_every=2, lattice=4800, medium=2400),
 }
 
 
@@ -130,10 +130,10 @@ def shard(rec, tier, index, n_shards):
     for case in engine.medium_cases(rng, plan["medium"] // n_shards):
         rec.count("medium_size_cases")
         do(case)
-    for case in engine.wide_cases(rng, 8 if tier == "quick" else 300):
+    for case in engine.wide_cases(rng, 8 if tier == "quick" else 60):
         rec.count("wide_cases")
         do(case)
-    for case in engine.high_order_cases(rng, 6 if tier == "quick" else 400):
+    for case in engine.high_order_cases(rng, 6 if tier == "quick" else 60):
         rec.count("high_order_cases")
         do(case)
     # bounded-exhaustive small shapes (engine.small_shapes): a seeded third in quick, all in thorough
